@@ -318,7 +318,8 @@ def trained_layer(ctx: Ctx, geom, ml, c, group, gs):
 
         def loss(params, static):
             y = eqx.combine(params, static)(x)
-            return sum(jnp.sum((v - 1.0) ** 2) for v in y.data.values())
+            # (a float zero first: a layer none of whose requested types is reachable returns no block at all)
+            return sum((jnp.sum((v - 1.0) ** 2) for v in y.data.values()), jnp.float32(0.0))
 
         for _ in range(2):
             params, static = eqx.partition(layer, eqx.is_inexact_array)
